@@ -7,9 +7,17 @@ lost device ACK -> retransmission, wrong toggle, corrupted) and CLEAR_FEATURE(EN
 endpoint number / direction (existing or not), whose SETUP and status stages are separate ops, so that other transactions
 fall between them and the request may be completed, left without its status ACK, or abandoned.
 
+Transactions that complete nothing are part of the histories as well: PING tokens (ACKed while a whole packet fits, NAKed
+otherwise, unanswered on an endpoint number nobody owns) and OUT data that is NAKed because the consumer of the endpoint is
+held off by the script (`hold` / `release` ops) until the two-packet buffer is full.  None of them may move a toggle.
+
 Toggles are observed on the wire only: IN = the DATA PID of every packet; OUT = whether an ACKed packet is delivered to the
-consumer (expected toggle) or skipped (repeated toggle).  The consumers are always ready and every packet fits the buffer, so
-back-pressure (C13) plays no role here.
+consumer (expected toggle) or skipped (repeated toggle).  Outside hold windows the consumers are always ready and every packet
+fits the buffer, so delivery is attributed to the transaction in whose time window it happens.  Inside a hold window nothing
+can be delivered; when the window ends the bytes that drain must be exactly the concatenation of the packets that the
+reference toggle says were new (ACKed with the expected toggle), in order -- the first packet at which the drained bytes
+diverge is the toggle observation that fails.  What PING / NAK answers should be (room accounting) is C13's business, not
+asserted here.
 """
 
 import hashlib
@@ -25,8 +33,8 @@ CLOCK_HZ = 60e6
 RULES = {
     "C14.advance_once_per_success": "after a successful transaction (host ACK seen by the device for IN, device ACK of new data "
                                     "for OUT) the endpoint's toggle has advanced exactly once",
-    "C14.no_advance_otherwise": "the toggle does not change without a successful transaction (missing/garbled ACK, NAK, repeated "
-                                "or corrupted packet)",
+    "C14.no_advance_otherwise": "the toggle does not change without a successful transaction (missing/garbled ACK, NAKed data, "
+                                "repeated or corrupted packet, PING whether ACKed or NAKed -- a PING carries no data)",
     "C14.clear_halt_resets_named": "after a completed CLEAR_FEATURE(ENDPOINT_HALT) the named endpoint/direction continues with DATA0",
     "C14.clear_halt_only_named": "a completed CLEAR_FEATURE(ENDPOINT_HALT) leaves every other endpoint/direction's toggle alone",
     "C14.incomplete_clear_halt_no_effect": "a CLEAR_FEATURE(ENDPOINT_HALT) whose status stage has not been ACKed changes no toggle",
@@ -35,21 +43,31 @@ RULES = {
 PROBES = ["clear_halt_completed", "clear_halt_named_existing_in", "clear_halt_named_existing_out", "clear_halt_named_missing",
           "clear_halt_status_unacked", "clear_halt_abandoned", "txn_between_setup_and_status", "ack_between_setup_and_status",
           "reset_observed_in_data1_to_data0", "reset_observed_out", "halt_strobe_coincides_packet_ready", "in_retry_across_clear_halt",
-          "out_dup_skipped", "other_feature_request", "v2_runs"]
+          "out_dup_skipped", "other_feature_request", "v2_runs",
+          "ping_acked", "ping_naked", "ping_unanswered", "ping_between_setup_and_status", "toggle_observed_after_ping_ack",
+          "toggle_observed_after_ping_nak", "out_naked_no_room", "toggle_observed_after_out_nak", "hold_windows_checked",
+          "held_packets_checked", "in_toggle_observed_after_ping"]
 META = {
     "components_real": ["USBDevice", "USBControlEndpoint", "USBSetupDecoder", "StandardRequestHandler", "USBStreamInEndpoint",
                         "USBInTransferManager", "USBStreamOutEndpoint", "USBEndpointMultiplexer", "USBTokenDetector",
                         "USBHandshakeDetector", "USBHandshakeGenerator", "USBDataPacketReceiver", "USBDataPacketGenerator"],
     "components_stubbed": ["UTMI PHY + host (models.usb2.UTMIHost + models.streams_usb2 transactions)",
-                           "stream producers / always-ready consumers (models.streams_usb2)"],
+                           "stream producers / consumers (models.streams_usb2): consumers always ready except inside "
+                           "script-controlled hold windows"],
     "assumptions": ["legal UTMI; legal host timing (>= 2 bit times between packets)",
                     "a request 'completes' when the device's zero-length DATA1 status packet is ACKed by the host and that ACK "
                     "reaches the device", "the host may schedule bulk transactions of other endpoints between the stages of a "
-                    "control transfer", "OUT payloads are 1..mps bytes so delivery vs. skip is observable"],
+                    "control transfer", "OUT payloads are 1..mps bytes so delivery vs. skip is observable",
+                    "PING is sent on every variant (as C13 does); its answer is recorded, not judged",
+                    "a hold window starts and ends between transactions, with the endpoint's buffer drained at its start; the "
+                    "consumer takes everything within 2*mps+12 cycles of being released"],
     "rule": "op list of IN/OUT transactions on endpoints 1-2 with lost/garbled ACKs, wrong toggles and corruption, and "
             "CLEAR_FEATURE transfers (SETUP op, 0-2 ops in between, status op with good/missing ACK or none at all) naming "
             "endpoint 0-3 IN/OUT, plus a few other feature selectors / recipients; producers synchronise a packet-completing "
-            "byte with the status ACK in some runs",
+            "byte with the status ACK in some runs; per-run PING rate 0-20 % (endpoints 1-2, rarely the unowned 3), per-run "
+            "rate of hold windows on an OUT endpoint's consumer (traffic is biased to a held endpoint so that its buffer "
+            "fills: ACK, ACK, NAK.., PING NAK, release, PING ACK, retry); PINGs / holds also fall between the stages of a "
+            "CLEAR_FEATURE transfer",
 }
 TIERS = {"quick": {"runs": 800, "wall": 75}, "thorough": {"runs": 7000, "wall": 900}}
 
@@ -73,10 +91,31 @@ def gen(rng, tier, index):
     p_none = 0 if fault_free else rng.choice([0, 0.1, 0.25])
     p_corrupt = 0 if fault_free else rng.choice([0, 0.1, 0.2])
     p_outf = 0 if fault_free else rng.choice([0, 0.15, 0.3])
+    p_ping = rng.choice([0, 0.06, 0.12, 0.2])
+    p_hold = 0 if fault_free else rng.choice([0, 0.04, 0.08, 0.15])
+    big = p_hold > 0 and rng.random() < 0.6                 # mostly full-size OUT packets: a held endpoint's buffer fills quickly
+    held = {}                                               # endpoint -> basic ops left until its consumer is released
     ops = []
 
+    def out_ep():
+        # traffic is biased towards an endpoint whose consumer is held, so that its buffer fills up
+        return rng.choice(sorted(held)) if held and rng.random() < 0.75 else rng.choice(EPS)
+
     def basic():
+        for ep in sorted(held):
+            held[ep] -= 1
+            if held[ep] < 0:
+                del held[ep]
+                return {"op": "release", "ep": ep}
+        if len(held) < len(EPS) and rng.random() < p_hold:
+            ep = rng.choice([e for e in EPS if e not in held])
+            held[ep] = rng.choice([1, 2, 3, 4, 5, 6, 8])
+            return {"op": "hold", "ep": ep}
+        if rng.random() < (2 * p_ping if held else p_ping):
+            return {"op": "ping", "ep": 3 if rng.random() < 0.08 else out_ep()}
         r = rng.random()
+        if held and r < 0.5 and rng.random() < 0.5:
+            r = 0.6                                         # more OUT traffic while a consumer is held
         if r < 0.5:
             q = rng.random()
             ack = "none" if q < p_none else ("corrupt" if q < p_none + p_corrupt else "good")
@@ -85,7 +124,7 @@ def gen(rng, tier, index):
                 op["bit"] = rng.randrange(8)
             return op
         if r < 0.9:
-            op = {"op": "out", "ep": rng.choice(EPS)}
+            op = {"op": "out", "ep": out_ep()}
             if rng.random() < p_outf:
                 k = rng.choice(["lost_ack", "lost_ack", "wrong_toggle", "corrupt_bit"])
                 op["fault"] = {"kind": k, "bits": [rng.randrange(64)]} if k == "corrupt_bit" else {"kind": k}
@@ -131,7 +170,8 @@ def gen(rng, tier, index):
                 tr["wait"], tr["off"], tr["patience"] = f"cf_in{ep}", rng.choice([0, 0, 0, 1, 2]), rng.choice([200, 600, 2000]) * bit
             trs.append(tr)
         streams[str(ep)] = trs
-    queues = {str(ep): [bytes(rng.getrandbits(8) for _ in range(rng.choice([1, 2, mps - 1, mps, rng.randint(1, mps)]))).hex()
+    sizes = [mps, mps, mps, mps - 1, rng.randint(1, mps)] if big else [1, 2, mps - 1, mps, rng.randint(1, mps)]
+    queues = {str(ep): [bytes(rng.getrandbits(8) for _ in range(rng.choice(sizes))).hex()
                         for _ in range(rng.randint(4, 16))] for ep in EPS}
     cfg = {"variant": variant, "mps": mps, "byte_period": rng.choice([1, 1, 2]), "pre": rng.choice([1, 1, 2]),
            "post": rng.choice([0, 0, 1]), "turn": bit * rng.choice([2, 2, 3, 6]), "tok_gap": bit * rng.choice([2, 3]),
@@ -154,6 +194,10 @@ def shrink_candidates(scn):
             c = copy.deepcopy(scn)
             c["config"][key] = val
             yield c
+    if any(op.get("op") in ("hold", "release") for op in scn["ops"]):
+        c = copy.deepcopy(scn)
+        c["ops"] = [op for op in c["ops"] if op.get("op") not in ("hold", "release")]
+        yield c
     for i, op in enumerate(scn["ops"]):
         if op.get("op") == "in" and op.get("ack") != "good":
             c = copy.deepcopy(scn)
@@ -182,6 +226,13 @@ def run(scn):
         ctx.out_queue[ep] = [bytes.fromhex(q) for q in cfg["queues"][str(ep)]]
     ops = scn["ops"]
 
+    held = {}                               # OUT endpoint -> cycle at which its consumer was held off
+
+    def release(h, ep):
+        conss[ep].hold = False
+        yield from h.idle(2 * mps + 12)                     # everything buffered (at most 2*mps bytes) drains
+        ctx.txns.append({"kind": "release", "ep": ep, "t_hold": held.pop(ep), "t_drained": h.t})
+
     def script(h):
         yield from h.idle(4)
         in_cf = False
@@ -189,6 +240,8 @@ def run(scn):
             k = op["op"]
             if in_cf and k in ("in", "out"):
                 probes["txn_between_setup_and_status"] += 1
+            if in_cf and k == "ping":
+                probes["ping_between_setup_and_status"] += 1
             if k == "in":
                 rec = yield from su.txn_in(h, ctx, op["ep"], ack=op["ack"], ack_bit=op.get("bit", 4))
                 if in_cf and rec.get("acked"):
@@ -198,6 +251,18 @@ def run(scn):
                 if rec is not None:
                     yield from h.idle(mps + 8)              # let the (always ready) consumer drain before the next transaction
                     rec["t_drained"] = h.t
+                    rec["held"] = op["ep"] in held
+            elif k == "ping":
+                yield from su.txn_ping(h, ctx, op["ep"])
+            elif k == "hold":
+                if op["ep"] not in held:
+                    # (every earlier packet of this endpoint has drained: see the idle after each OUT transaction)
+                    conss[op["ep"]].hold = True
+                    held[op["ep"]] = h.t
+                    ctx.fault("consumer_hold")
+            elif k == "release":
+                if op["ep"] in held:
+                    yield from release(h, op["ep"])
             elif k == "setup":
                 rec = yield from su.txn_setup(h, ctx, bytes.fromhex(op["bytes"]))
                 in_cf = rec["resp"] == "ACK"
@@ -210,6 +275,9 @@ def run(scn):
                 yield from h.idle(op["n"])
             else:
                 raise ValueError(k)
+        for ep in EPS:
+            if ep in held:
+                yield from release(h, ep)
         yield from h.idle(mps + 20)
 
     txr = cfg["txready"] if cfg["txready"] == "always" else tuple(cfg["txready"])
@@ -226,7 +294,7 @@ def run(scn):
 
     spy = HaltSpy()
     per_txn = (mps + 14) * (cfg["byte_period"] + (0 if txr == "always" else 1)) + 2 * ctx.timeout + 4 * ctx.turn + ctx.tok_gap + mps + 60
-    max_cycles = 600 + sum(op.get("n", 0) for op in ops) + len(ops) * per_txn
+    max_cycles = 600 + sum(op.get("n", 0) for op in ops) + (len(ops) + len(EPS)) * per_txn
     log = bench.run([host] + [prods[e] for e in EPS] + [conss[e] for e in EPS] + [spy], max_cycles, init=init)
     if not host._done:
         raise RuntimeError(f"host script did not finish within {max_cycles} cycles")
@@ -247,6 +315,8 @@ def run(scn):
     last_cf = None
     n_obs = 0
 
+    group = {e: [] for e in EPS}            # OUT packets sent while the endpoint's consumer was held: judged at the release
+
     def attribute(key, default_rule):
         ev = since[key]
         if any(kind == "done" and named == key for kind, named in ev):
@@ -265,7 +335,30 @@ def run(scn):
             return "C14.incomplete_clear_halt_no_effect", "stale_uncompleted_clear_feature_naming_it"
         if any(kind == "done" for kind, named in ev):
             return "C14.clear_halt_only_named", "after_completed_clear_halt_naming_other"
+        # transactions that complete nothing since the previous observation of this toggle
+        if any(kind == "ping" and named == "ACK" for kind, named in ev):
+            return "C14.no_advance_otherwise", "after_ping_ack"
+        if any(kind == "ping" for kind, named in ev):
+            return "C14.no_advance_otherwise", "after_ping_nak"
+        if any(kind == "nak" for kind, named in ev):
+            return "C14.no_advance_otherwise", "after_naked_out"
         return default_rule, "no_clear_halt_involved"
+
+    def observed(key):
+        """ probes: which non-completing transactions preceded this observation of the toggle; then forget them """
+        ev = since[key]
+        if any(kind == "done" and nm == key for kind, nm in ev):
+            probes["reset_observed_in_data1_to_data0" if key[0] == "in" else "reset_observed_out"] += 1
+        if key[0] == "out":
+            if ("ping", "ACK") in ev:
+                probes["toggle_observed_after_ping_ack"] += 1
+            if ("ping", "NAK") in ev:
+                probes["toggle_observed_after_ping_nak"] += 1
+            if any(kind == "nak" for kind, nm in ev):
+                probes["toggle_observed_after_out_nak"] += 1
+        elif any(kind == "ping" for kind, nm in ev):
+            probes["in_toggle_observed_after_ping"] += 1
+        since[key] = [x for x in ev if x[0] == "started"]
 
     for x in ctx.txns:
         kind = x["kind"]
@@ -337,58 +430,144 @@ def run(scn):
                 viol.add(rule, t, f"IN ep{e}: {why} carries DATA{pid}, reference toggle says DATA{exp}; control events since "
                          f"the previous packet of this endpoint: {since[key]}", kind="in_toggle", cause=cause, got=pid, **base)
                 break
-            if any(k == "done" and n == key for k, n in since[key]):
-                probes["reset_observed_in_data1_to_data0"] += 1
-            since[key] = [ev for ev in since[key] if ev[0] == "started"]
+            observed(key)
             if x["acked"]:
                 model[key] = pid ^ 1
                 unacked[e] = None
             else:
                 unacked[e] = pid
             unacked_reset[e] = False
+        elif kind == "ping":
+            e = x["ep"]
+            resp = x["resp"]
+            if resp == "ACK":
+                probes["ping_acked"] += 1
+            elif resp == "NAK":
+                probes["ping_naked"] += 1
+            else:
+                probes["ping_unanswered"] += 1
+            if e in EPS and resp in ("ACK", "NAK"):
+                # a PING transfers nothing: the reference toggles stay as they are, whatever the answer
+                since[("out", e)].append(("ping", resp))
+                since[("in", e)].append(("ping", resp))
         elif kind == "out":
             e = x["ep"]
             key = ("out", e)
             d = parse_data(x["wire"])
             t = x.get("t_resp", x["t_data_end"])
-            delivered = conss[e].count_at(x.get("t_drained", x["t_done"])) - conss[e].count_at(x["t_tok_start"])
+            is_held = bool(x.get("held"))
+            # inside a hold window nothing can be delivered: what was buffered is judged when the window ends
+            delivered = 0 if is_held else conss[e].count_at(x.get("t_drained", x["t_done"])) - conss[e].count_at(x["t_tok_start"])
             if d is None or d[0] not in su.DATA01:
                 if x["resp"] == "ACK" or delivered:
                     viol.add("C14.no_advance_otherwise", t, f"OUT ep{e}: corrupted packet was {'ACKed' if x['resp'] == 'ACK' else ''} "
                              f"{'delivered' if delivered else ''}", kind="out_corrupt", cause="no_clear_halt_involved", got=-1, **base)
                     break
+                if is_held:
+                    group[e].append({"type": "corrupt", "payload": bytes(x["wire"][1:-2]), "t": t})
                 continue
             if x["resp"] not in ("ACK", "NAK"):
                 viol.add("C14.response", t, f"OUT ep{e}: valid packet answered with {x['resp']!r}", kind="out_no_handshake", **base)
                 break
+            wire_tog = 1 if d[0] == "DATA1" else 0
+            n = len(d[1])
             if x["resp"] == "NAK":
                 if delivered:
                     viol.add("C14.no_advance_otherwise", t, f"OUT ep{e}: NAKed packet delivered", kind="out_nak_delivered",
                              cause="no_clear_halt_involved", got=-1, **base)
                     break
+                probes["out_naked_no_room"] += 1
+                since[key].append(("nak", "out"))
+                if is_held:
+                    group[e].append({"type": "nak", "payload": d[1], "t": t})
                 continue
             n_obs += 1
-            wire_tog = 1 if d[0] == "DATA1" else 0
-            n = len(d[1])
+            if is_held:
+                # reference verdict; the device's verdict becomes visible when the consumer is released
+                new = wire_tog == model[key]
+                # (should the device turn out to disagree, the divergence is classified by what had happened up to here)
+                group[e].append({"type": "new" if new else "repeat", "payload": d[1], "t": t, "wire_tog": wire_tog,
+                                 "model": model[key], "since": list(since[key]),
+                                 "attr": attribute(key, "C14.advance_once_per_success" if new else "C14.no_advance_otherwise")})
+                probes["held_packets_checked"] += 1
+                observed(key)
+                if new:
+                    model[key] ^= 1
+                else:
+                    probes["out_dup_skipped"] += 1
+                continue
             device_tog = wire_tog if delivered == n else (wire_tog ^ 1 if delivered == 0 else None)
             if device_tog is None:
                 viol.add("C14.no_advance_otherwise", t, f"OUT ep{e}: ACKed {n}-byte packet, {delivered} bytes delivered",
                          kind="out_partial", cause="no_clear_halt_involved", got=-1, **base)
                 break
             if device_tog != model[key]:
-                was_success = bool(since[key] == [] and True)
                 rule, cause = attribute(key, "C14.advance_once_per_success" if device_tog != wire_tog else "C14.no_advance_otherwise")
                 viol.add(rule, t, f"OUT ep{e}: DATA{wire_tog} packet was ACKed and {'delivered' if delivered else 'skipped'}, so the "
-                         f"endpoint expected DATA{device_tog}; reference toggle says DATA{model[key]}; control events since the "
+                         f"endpoint expected DATA{device_tog}; reference toggle says DATA{model[key]}; events since the "
                          f"previous ACKed packet of this endpoint: {since[key]}", kind="out_toggle", cause=cause, got=device_tog, **base)
                 break
-            if any(k == "done" and nm == key for k, nm in since[key]):
-                probes["reset_observed_out"] += 1
-            since[key] = [ev for ev in since[key] if ev[0] == "started"]
+            observed(key)
             if delivered:
                 model[key] ^= 1
             else:
                 probes["out_dup_skipped"] += 1
+        elif kind == "release":
+            # end of a hold window: the drained bytes must be exactly the packets the reference toggle calls new, in order
+            e = x["ep"]
+            key = ("out", e)
+            got = bytes(b for tt, b, _, _ in conss[e].taken if x["t_hold"] <= tt <= x["t_drained"])
+            probes["hold_windows_checked"] += 1
+            p = 0
+            passed = []                    # packets since the last match that should have contributed nothing
+            bad = None
+
+            def intruder():
+                for g in passed:
+                    if len(g["payload"]) and got[p:p + len(g["payload"])] == g["payload"]:
+                        return g
+                return None
+
+            for g in group[e]:
+                if g["type"] != "new":
+                    passed.append(g)
+                    continue
+                pl = g["payload"]
+                if got[p:p + len(pl)] == pl:
+                    p += len(pl)
+                    passed = []
+                    continue
+                bad = intruder() or g
+                break
+            if bad is None and p < len(got):
+                bad = intruder() or {"type": "extra", "payload": got[p:], "t": x["t_drained"]}
+            group[e] = []
+            if bad is not None:
+                ctxt = f"hold window of OUT ep{e} (cycles {x['t_hold']}..{x['t_drained']}): {len(got)} bytes drained, the first {p} " \
+                       f"match the packets the reference toggle calls new; then "
+                pl = bad["payload"]
+                if bad["type"] == "new":
+                    rule, cause = bad["attr"]
+                    viol.add(rule, bad["t"], ctxt + f"the ACKed DATA{bad['wire_tog']} packet {pl[:8].hex()}.. ({len(pl)} bytes) is missing "
+                             f"(stream continues {got[p:p + 8].hex()}..): it was skipped, so the endpoint expected "
+                             f"DATA{bad['wire_tog'] ^ 1}; reference toggle says DATA{bad['model']}; events since the previous ACKed "
+                             f"packet of this endpoint: {bad['since']}", kind="out_toggle", cause=cause, got=bad["wire_tog"] ^ 1, **base)
+                elif bad["type"] == "repeat":
+                    rule, cause = bad["attr"]
+                    viol.add(rule, bad["t"], ctxt + f"the ACKed DATA{bad['wire_tog']} packet {pl[:8].hex()}.. ({len(pl)} bytes) follows: "
+                             f"it was delivered, so the endpoint expected DATA{bad['wire_tog']}; reference toggle says "
+                             f"DATA{bad['model']} (a repeat); events since the previous ACKed packet of this endpoint: {bad['since']}",
+                             kind="out_toggle", cause=cause, got=bad["wire_tog"], **base)
+                elif bad["type"] == "nak":
+                    viol.add("C14.no_advance_otherwise", bad["t"], ctxt + f"the NAKed packet {pl[:8].hex()}.. follows",
+                             kind="out_nak_delivered", cause="no_clear_halt_involved", got=-1, **base)
+                elif bad["type"] == "corrupt":
+                    viol.add("C14.no_advance_otherwise", bad["t"], ctxt + f"the corrupted packet {pl[:8].hex()}.. follows",
+                             kind="out_corrupt", cause="no_clear_halt_involved", got=-1, **base)
+                else:
+                    viol.add("C14.no_advance_otherwise", bad["t"], ctxt + f"{len(pl)} bytes {pl[:8].hex()}.. that belong to no packet "
+                             f"ACKed as new", kind="out_partial", cause="no_clear_halt_involved", got=-1, **base)
+                break
     if len(host.tx_packets) != ctx.n_recv and not viol:
         viol.add("C14.response", host.tx_packets[-1]["start"], "unsolicited device transmission", kind="unsolicited", **base)
 
